@@ -69,9 +69,33 @@ func diffWordsToRunes(doc *indexedDocument, start, end int) []rune {
 	runes := make([]rune, 0, end-start)
 
 	for _, t := range doc.Tokens[start:end] {
-		runes = append(runes, rune(t.ID))
+		runes = append(runes, idToRune(t.ID))
 	}
 	return runes
+}
+
+// The diff library turns the runes it is given into a string and back. The
+// surrogate code points (U+D800 to U+DFFF) don't survive that: each of them
+// comes back as U+FFFD, so all token IDs in that range would look alike.
+// idToRune therefore skips the range, and runeToID undoes that.
+const (
+	surrogateMin  = 0xD800
+	surrogateSize = 0xE000 - 0xD800
+)
+
+func idToRune(id tokenID) rune {
+	r := rune(id)
+	if r >= surrogateMin {
+		r += surrogateSize
+	}
+	return r
+}
+
+func runeToID(r rune) tokenID {
+	if r >= surrogateMin+surrogateSize {
+		r -= surrogateSize
+	}
+	return tokenID(r)
 }
 
 // diffRunesToWords rehydrates the text in a diff from a string of word hashes to real words of text.
@@ -82,7 +106,7 @@ func diffRunesToWords(diffs []diffmatchpatch.Diff, dict *dictionary) []diffmatch
 		var sb strings.Builder
 
 		for i, r := range chars {
-			sb.WriteString(dict.getWord(tokenID(r)))
+			sb.WriteString(dict.getWord(runeToID(r)))
 			if (i + 1) < len(chars) {
 				sb.WriteByte(' ')
 			}
